@@ -48,6 +48,21 @@ def gen(ctx):
         width = r.choice([0, 0, 0, 1, 50, 100, 200, 333, 1000]) if ctx.tier == 'thorough' else r.choice([0, 0, 1, 60, 150])
         meta.append((sym, level, q, s, width, p))
         L.append('render %s %d 1 %d %d %d %d %s' % (sym, level, q, s.numerator, s.denominator, width, p.hex()))
+    # deterministic corpus: every quiet zone 0..8 at module size 1 and 3/2, and a scan of requested widths just above the
+    # natural size (the width option wins; rounding classes of the float arithmetic), smallest symbol of every package
+    for sym in ('qr', 'mq', 'rm'):
+        p = b'1'
+        level = {'qr': 1, 'mq': 2, 'rm': 0}[sym]
+        nat = {'qr': 21, 'mq': 11, 'rm': 43}[sym]
+        for q in range(0, 9):
+            for s in (Fraction(1), Fraction(3, 2)):
+                meta.append((sym, level, q, s, 0, p))
+        for q in (0, 4) if ctx.tier == 'quick' else (0, 1, 2, 3, 4):
+            w = nat + 2 * q
+            for width in list(range(w + 1, w + (70 if ctx.tier == 'quick' else 400))):
+                meta.append((sym, level, q, Fraction(1), width, p))
+    for (sym, level, q, s, width, p) in meta[n:]:
+        L.append('render %s %d 1 %d %d %d %d %s' % (sym, level, q, s.numerator, s.denominator, width, p.hex()))
     ctx.c12 = {'meta': meta, 'dropped': 0}
     return L
 
